@@ -199,12 +199,23 @@ func run(c *core.Case, st *core.CaseStats, seed int64) {
 		var dst []byte
 		var err error
 		if guard("AESCBCEncrypt", in, func() {
-			if lay == "shared" {
+			switch lay {
+			case "shared":
 				buf := make([]byte, want[0])
 				copy(buf, plain)
 				dst = buf
 				err = cryptz.AESCBCEncrypt(dst, buf[:n], key, iv)
-			} else {
+			case "pool": // two disjoint windows of one allocation; dst holds stale bytes
+				pool := rb(256 + want[0])
+				copy(pool[:n], plain)
+				dst = pool[128 : 128+want[0]]
+				err = cryptz.AESCBCEncrypt(dst, pool[:n], key, iv)
+			case "shift": // the plaintext sits 16 bytes into the buffer that receives the ciphertext
+				frame := rb(16 + want[0])
+				copy(frame[16:], plain)
+				dst = frame[:want[0]]
+				err = cryptz.AESCBCEncrypt(dst, frame[16:16+n], key, iv)
+			default:
 				dst = make([]byte, want[0])
 				err = cryptz.AESCBCEncrypt(dst, plain, key, iv)
 			}
@@ -296,6 +307,57 @@ func run(c *core.Case, st *core.CaseStats, seed int64) {
 				rep("AESGCMDecrypt", "value", in, "error", "nil")
 			}
 		})
+	case "keyseq":
+		lens := core.RawInts(c.S)
+		mode := argS(c, 0)
+		base := rb(16)
+		iv, nonce, plain := rb(16), rb(12), rb(21)
+		in := map[string]interface{}{"keylens": lens, "mode": mode}
+		st.Nontrivial++
+		guard("keyseq", in, func() {
+			for step, kl := range lens {
+				key := make([]byte, kl) // the same leading bytes, zero-extended
+				copy(key, base)
+				valid := kl == 16 || kl == 24 || kl == 32
+				if mode == "cbc" {
+					dst := make([]byte, cryptz.AESCBCEncryptLen(plain))
+					err := cryptz.AESCBCEncrypt(dst, plain, key, iv)
+					if !valid {
+						if err == nil {
+							rep("AESCBCEncrypt", "value", in, fmt.Sprintf("error for a %d-byte key (call %d)", kl, step+1), "nil")
+						}
+						continue
+					}
+					if ref := cbcRef(key, iv, plain); err != nil || !bytes.Equal(dst, ref) {
+						rep("AESCBCEncrypt", "value", in, fmt.Sprintf("standard AES-CBC under the %d-byte key (call %d)", kl, step+1), fmt.Sprint(err))
+					}
+				} else {
+					dst := make([]byte, len(plain)+16)
+					err := cryptz.AESGCMEncrypt(dst, plain, key, nonce, nil)
+					if !valid {
+						if err == nil {
+							rep("AESGCMEncrypt", "value", in, fmt.Sprintf("error for a %d-byte key (call %d)", kl, step+1), "nil")
+						}
+						continue
+					}
+					blk, _ := aes.NewCipher(key)
+					g, _ := cipher.NewGCM(blk)
+					if ref := g.Seal(nil, nonce, plain, nil); err != nil || !bytes.Equal(dst, ref) {
+						rep("AESGCMEncrypt", "value", in, fmt.Sprintf("standard AES-GCM under the %d-byte key (call %d)", kl, step+1), fmt.Sprint(err))
+					}
+					// a message sealed under this key must not open under the previous (shorter / longer) one
+					if step > 0 {
+						prev := make([]byte, lens[step-1])
+						copy(prev, base)
+						if pl := lens[step-1]; pl == 16 || pl == 24 || pl == 32 {
+							if err := cryptz.AESGCMDecrypt(make([]byte, len(plain)), dst, prev, nonce, nil); err == nil {
+								rep("AESGCMDecrypt", "value", in, "error under a key of another length", "nil")
+							}
+						}
+					}
+				}
+			}
+		})
 	case "gcm":
 		n, nl, al, k, lay := argI(c, 0), argI(c, 1), argI(c, 2), argI(c, 3), argS(c, 4)
 		key, nonce, aad, plain := rb(k), rb(nl), rb(al), rb(n)
@@ -318,6 +380,11 @@ func run(c *core.Case, st *core.CaseStats, seed int64) {
 				copy(buf, plain)
 				dst = buf
 				err = cryptz.AESGCMEncrypt(dst, buf[:n], key, nonce, aad)
+			} else if lay == "pool" {
+				pool := rb(256 + n + 16)
+				copy(pool[:n], plain)
+				dst = pool[128 : 128+n+16]
+				err = cryptz.AESGCMEncrypt(dst, pool[:n], key, nonce, aad)
 			} else {
 				dst = make([]byte, n+16)
 				err = cryptz.AESGCMEncrypt(dst, plain, key, nonce, aad)
